@@ -397,8 +397,8 @@ def o_to_pgl(A, bilinear_form=np.diag([-1, 1, 1])):
     if A_d[1][2] * A_d[0][1] < 0:
         d = d * -1
 
-    return np.array([[a, b],
-                     [c, d]])
+    return np.array([[d, c],
+                     [b, a]])
 
 def sl2_to_so21(A):
     r"""Return the image of an element of $\mathrm{SL}(2, \mathbb{R})$
